@@ -139,6 +139,25 @@ func (tb *zzC15Table) fit(ts []string) {
 	tb.rlLen = min(tb.rlLen, 64000/most-200)
 }
 
+// zzC15LongAtoms are the rule atoms that make line length a dimension of the
+// content: around a 4 KiB buffer, several buffers, and the two sides of the
+// 64 KiB limit of a line buffer.
+var zzC15LongAtoms = []string{"L4095", "L4096", "L4097", "L5K", "L40K", "L65535", "L65536"}
+
+// zzC15LongLen returns the byte length of a long rule atom, or 0.
+func zzC15LongLen(t string, jitter int) (n int) {
+	switch t {
+	case "L5K":
+		return 5000 + jitter%300
+	case "L40K":
+		return 40000 + jitter%2000
+	case "L4095", "L4096", "L4097", "L65535", "L65536":
+		n, _ = strconv.Atoi(t[1:])
+	}
+
+	return n
+}
+
 // tok returns the spelling of token t.
 func (tb *zzC15Table) tok(t string) (s string) {
 	if s, ok := tb.m[t]; ok {
@@ -150,6 +169,10 @@ func (tb *zzC15Table) tok(t string) (s string) {
 		s = "||" + strings.Repeat("l", tb.rlLen) + "." + tb.scope + ".example^"
 	case t == "XL":
 		s = "||" + strings.Repeat("x", 66000+tb.rlLen%3000) + "." + tb.scope + ".example^"
+	case zzC15LongLen(t, tb.rlLen) > 0:
+		// Rule text of exactly that many bytes.
+		tail := "." + tb.scope + ".example^" + tb.suffix
+		s = "||" + strings.Repeat("l", zzC15LongLen(t, tb.rlLen)-2-len(tail)) + tail
 	case strings.HasPrefix(t, "R"):
 		s = "||r" + t[1:] + "." + tb.scope + ".example^" + tb.suffix
 	case strings.HasPrefix(t, "Q"):
@@ -548,6 +571,18 @@ func zzC15RandText(rng *rand.Rand, n, nAtoms int, parserOnly, clean bool) (ts []
 		titleAt, cosmAt, cosmAt2 = rng.Intn(n), rng.Intn(n), rng.Intn(n)
 	}
 
+	// Every fifth text has one or two rule lines of 4095 .. 65536 bytes between
+	// its short lines (never glued to another line by a bare CR: at most one
+	// of them per physical line).
+	longAt, longAt2 := -1, -1
+	if n > 0 && rng.Intn(5) == 0 {
+		longAt = rng.Intn(n)
+		if rng.Intn(2) == 0 {
+			longAt2 = rng.Intn(n)
+		}
+	}
+
+	glued := false
 	for i := 0; i < n; i++ {
 		var l []string
 		for {
@@ -571,15 +606,31 @@ func zzC15RandText(rng *rand.Rand, n, nAtoms int, parserOnly, clean bool) (ts []
 			l = []string{"COSM"}
 		}
 
+		long := false
+		if (i == longAt || i == longAt2) && !glued && (!clean || rng.Intn(4) != 0) {
+			long = true
+			atoms := zzC15LongAtoms
+			if clean {
+				atoms = atoms[:len(atoms)-1]
+			}
+
+			l = []string{zzC15Pick(rng, atoms)}
+			if rng.Intn(4) == 0 {
+				l = append([]string{"SP"}, l...)
+			}
+		}
+
+		glued = false
 		ts = append(ts, l...)
 		switch e := rng.Intn(12); {
 		case i == n-1 && e < 3:
 			// End of input.
 		case e < 8:
 			ts = append(ts, "LF")
-		case e < 11 || !parserOnly:
+		case e < 11 || !parserOnly || long:
 			ts = append(ts, "CR", "LF")
 		default:
+			glued = true
 			// A bare CR glues this line to the next one (parser half only: the
 			// refresh half probes rules through the engine, which must see one
 			// rule per line).
